@@ -12,6 +12,7 @@ d = os.path.join(HERE, "seeded", a.sid)
 meta = json.load(open(os.path.join(d, "meta.json")))
 checks = a.checks.split(",") if a.checks else [meta["property"]]
 env = dict(os.environ)
+env["VERIF_EVIDENCE_DIR"] = os.path.join(HERE, ".run", "seeded-evidence", a.sid)   # never clobber evidence/ of the real tree
 if a.scratch:
     target = f"/tmp/seedrun-{a.sid}"
     subprocess.run(["git", "-C", "/repo", "worktree", "add", "-q", "--detach", target, "HEAD"], check=True)
